@@ -7,16 +7,11 @@ use crate::vx_gram::*;
 use crate::vx_ord::*;
 use crate::vx_hash::*;
 use crate::vx_utf8::*;
-broadcast use {vstd::std_specs::hash::group_hash_axioms, crate::vx_hash_ax::group_key_models, crate::vx_ordax::group_lawful, crate::data::oset::axiom_yielded_oset, crate::vx_hash::group_string_keys};
+broadcast use {vstd::std_specs::hash::group_hash_axioms, crate::vx_hash_ax::group_key_models, crate::vx_ordax::group_lawful, crate::data::oset::axiom_yielded_oset, crate::vx_ord::axiom_yielded_vec, crate::vx_hash::group_string_keys};
 //@]
 use super::*;
 
 //@[ C17 C07 ghost vocabulary local to the fixpoint computation
-/// every nonterminal of the sequence is a key of the map
-spec fn syms_covered(m: FsMap, syms: Seq<Symbol>) -> bool {
-    forall|i: int| 0 <= i < syms.len() && (#[trigger] syms[i]) is Nonterminal ==> fs_has(m, sym_name(syms[i]))
-}
-
 /// the set of names covers every nonterminal that has a rule or occurs in a right-hand side
 spec fn has_name(s: Set<&str>, a: Seq<char>) -> bool { exists|n: &str| s.contains(n) && n@ == a }
 spec fn has_lhs(s: Set<&str>, g: Seq<Rule>, ri: int) -> bool { has_name(s, rule_lhs(g[ri])) }
@@ -652,8 +647,8 @@ struct DidChange(bool);
 //@[ spec side of `|=` on DidChange (vstd operator specs)
 impl vstd::std_specs::ops::BitOrAssignSpecImpl for DidChange {
     closed spec fn obeys_bitor_assign_spec() -> bool { true }
-    closed spec fn bitor_assign_req(self, rhs: DidChange) -> bool { true }
-    closed spec fn bitor_assign_spec(self, rhs: DidChange) -> DidChange { DidChange(self.0 || rhs.0) }
+    closed spec fn bitor_assign_req(&self, rhs: DidChange) -> bool { true }
+    closed spec fn bitor_assign_spec(&self, rhs: DidChange) -> &DidChange { &DidChange(self.0 || rhs.0) }
 }
 //@]
 
